@@ -24,34 +24,37 @@ pub struct Mask {
     pub errs: &'static str, // "all" | "ifok" | "last" | "spans" | "none"
     pub obs: &'static str,  // "none" | "ext" | "insp" | "all"
     pub insp: bool,
+    pub leak: bool, // C19: number of tracked values lost without being dropped
 }
 
 pub fn mask_for(prop: &str) -> Mask {
     match prop {
-        "ALL" => Mask { out: true, errs: "all", obs: "all", insp: true },
+        "ALL" => Mask { out: true, errs: "all", obs: "all", insp: true, leak: true },
         // acceptance, value, how much each sub-parser consumed (probe extents)
-        "C01" | "C02" => Mask { out: true, errs: "none", obs: "ext", insp: false },
-        "C03" | "C19" | "C20" => Mask { out: false, errs: "none", obs: "none", insp: false },
+        "C01" | "C02" => Mask { out: true, errs: "none", obs: "ext", insp: false, leak: false },
+        "C03" | "C20" => Mask { out: false, errs: "none", obs: "none", insp: false, leak: false },
+        // acceptance, outputs and how many tracked values were lost (the model says: none, except at listed defect sites)
+        "C19" => Mask { out: true, errs: "none", obs: "none", insp: false, leak: true },
         // check vs parse is decided on the real crate (real_asserts); the model contributes acceptance
-        "C04" => Mask { out: false, errs: "none", obs: "none", insp: false },
-        "C05" => Mask { out: false, errs: "ifok", obs: "none", insp: false },
-        "C06" => Mask { out: false, errs: "last", obs: "none", insp: false },
-        "C07" => Mask { out: true, errs: "none", obs: "none", insp: false },
-        "C18" => Mask { out: true, errs: "none", obs: "insp", insp: true },
+        "C04" => Mask { out: false, errs: "none", obs: "none", insp: false, leak: false },
+        "C05" => Mask { out: false, errs: "ifok", obs: "none", insp: false, leak: false },
+        "C06" => Mask { out: false, errs: "last", obs: "none", insp: false, leak: false },
+        "C07" => Mask { out: true, errs: "none", obs: "none", insp: false, leak: false },
+        "C18" => Mask { out: true, errs: "none", obs: "insp", insp: true, leak: false },
         // memoization is judged against the memo-free grammar on the real crate (real_asserts);
         // the model contributes acceptance and outputs
-        "C11" => Mask { out: true, errs: "none", obs: "none", insp: false },
+        "C11" => Mask { out: true, errs: "none", obs: "none", insp: false, leak: false },
         // representation independence is judged on the real crate, kind against kind (real_asserts);
         // the model contributes acceptance and outputs per kind
-        "C10" => Mask { out: true, errs: "none", obs: "none", insp: false },
+        "C10" => Mask { out: true, errs: "none", obs: "none", insp: false, leak: false },
         // C08, C12, C13, C15, C16, C17: acceptance, outputs, errors
-        _ => Mask { out: true, errs: "all", obs: "none", insp: false },
+        _ => Mask { out: true, errs: "all", obs: "none", insp: false, leak: false },
     }
 }
 
 impl Mask {
     pub fn to_json(&self) -> J {
-        json!({"out": self.out, "errs": self.errs, "obs": self.obs, "insp": self.insp})
+        json!({"out": self.out, "errs": self.errs, "obs": self.obs, "insp": self.insp, "leak": self.leak})
     }
 }
 
@@ -93,7 +96,8 @@ pub fn proj_mask(m: &Mask, mode: &str, o: &J) -> J {
         _ => J::Null,
     };
     let insp = if m.insp && ok { o["insp"].clone() } else { J::Null };
-    json!({"ok": ok, "panic": panic, "out": out, "errs": errs, "obs": obs, "insp": insp})
+    let leak = if m.leak && !panic { o["leaked"].clone() } else { J::Null };
+    json!({"ok": ok, "panic": panic, "out": out, "errs": errs, "obs": obs, "insp": insp, "leaked": leak})
 }
 
 pub fn proj(prop: &str, mode: &str, o: &J) -> J {
@@ -371,14 +375,11 @@ pub fn real_asserts(prop: &str, case: &Case, real: &Obs, all: &dyn Fn(&str, &str
             if real.double_drops > 0 {
                 return Some(format!("{} value(s) dropped twice", real.double_drops));
             }
-            if real.live_after != 0 {
-                return Some(format!("{} value(s) leaked (live after the result was dropped)", real.live_after));
-            }
-            if real.panic.is_none() && real.live_with_result != real.tracks_in_output {
-                return Some(format!(
-                    "{} value(s) alive while the result is held but the output contains {}",
-                    real.live_with_result, real.tracks_in_output
-                ));
+            // values lost while the result was still held are compared with the specification ("leaked");
+            // once the result has been dropped nothing else may remain
+            let leaked = real.live_with_result - real.tracks_in_output;
+            if real.panic.is_none() && real.live_after != leaked {
+                return Some(format!("{} value(s) still alive after the result was dropped ({} lost during the parse)", real.live_after, leaked));
             }
             if case.mode == "C" && real.created != 0 {
                 // values built in check mode are allowed only below combinators that need them
